@@ -2,6 +2,7 @@ package regclient
 
 import (
 	"archive/tar"
+	"bytes"
 	"cmp"
 	"compress/gzip"
 	"context"
@@ -1332,6 +1333,17 @@ func (rc *RegClient) ImageImport(ctx context.Context, r ref.Ref, rs io.ReadSeeke
 	return nil
 }
 
+// imageImportBlobBytes pushes a blob whose tar entry has already been read.
+func (rc *RegClient) imageImportBlobBytes(ctx context.Context, r ref.Ref, desc descriptor.Descriptor, b []byte) error {
+	// skip if blob already exists
+	_, err := rc.BlobHead(ctx, r, desc)
+	if err == nil {
+		return nil
+	}
+	_, err = rc.BlobPut(ctx, r, desc, bytes.NewReader(b))
+	return err
+}
+
 func (rc *RegClient) imageImportBlob(ctx context.Context, r ref.Ref, desc descriptor.Descriptor, trd *tarReadData) error {
 	// skip if blob already exists
 	_, err := rc.BlobHead(ctx, r, desc)
@@ -1528,15 +1540,15 @@ func (rc *RegClient) imageImportOCIHandleManifest(ctx context.Context, r ref.Ref
 					mediatype.Docker2Layer, mediatype.Docker2LayerGzip, mediatype.Docker2LayerZstd,
 					mediatype.OCI1Layer, mediatype.OCI1LayerGzip, mediatype.OCI1LayerZstd,
 					mediatype.BuildkitCacheConfig:
-					// known blob media types
-					return rc.imageImportBlob(ctx, r, d, trd)
+					// known blob media types, the tar entry has already been read into b
+					return rc.imageImportBlobBytes(ctx, r, d, b)
 				default:
 					// attempt manifest import, fall back to blob import
 					md, err := manifest.New(manifest.WithDesc(d), manifest.WithRaw(b))
 					if err == nil {
 						return rc.imageImportOCIHandleManifest(ctx, r, md, trd, true, child)
 					}
-					return rc.imageImportBlob(ctx, r, d, trd)
+					return rc.imageImportBlobBytes(ctx, r, d, b)
 				}
 			}
 		}
